@@ -105,6 +105,10 @@ def make_envs(tier, seed):
                 out.append(({v: x}, 0, "lists"))
         for e in pairwise({v: ext(v) for v in LIST_TYPE}, rng):
             out.append((e, 0, "lists"))
+    # variables the documents do not mention must not matter: TMPDIR (the runtime directory falls back to the literal /tmp)
+    for rd in ext("XDG_RUNTIME_DIR"):
+        for td in ("/var/tmp", "@/mytmp", ""):
+            out.append((dict(HOME="@/home", XDG_RUNTIME_DIR=rd, TMPDIR=td), 0, "undocumented-vars"))
     for e in product({"SUDO_UID": ext("SUDO_UID"), "SUDO_GID": ext("SUDO_GID")}):
         out.append((e, 0, "rids"))
     # seeded random rows over the extended values
